@@ -310,8 +310,8 @@ fn check_reads<T: Ix>(what: &str, ix: &T, m: &Mm, ops: &[Op], step: usize) -> Re
          }
       }
    }
-   if T::CONCURRENT {
-      // the parallel read interface answers like the model too
+   if T::CONCURRENT && step % 3 == 0 {
+      // the parallel read interface answers like the model too (at every third step: each read enters the rayon pool)
       for k in 0..7u8 {
          let got = catch(|| ix.c_get(k)).map_err(|e| format!("{}: c_index_get panicked: {e}", T::NAME))?;
          let kk = if T::NOKEY { 0 } else { k };
@@ -470,7 +470,7 @@ fn run_history_with<T: Ix>(ops: &[Op], new: T, delta: T, total: T, spread: bool)
                   return Err(format!("{}: combined index_get({k}) = {got:?}, model {want:?} (step {step} of {ops:?})", T::NAME));
                }
             }
-            if T::CONCURRENT {
+            if T::CONCURRENT && step % 2 == 0 {
                for k in 0..7u8 {
                   let kk = if T::NOKEY { 0 } else { k };
                   let mut want = mt.get(&kk).cloned().unwrap_or_default();
@@ -808,6 +808,80 @@ fn read_while_write_rounds(a: &Args, rep: &mut Report, rounds: u32) {
    rep.count("read_while_write_lookups", lookups_total);
 }
 
+/// Parallel iteration over a frozen index returns every entry once, whatever the size of the pool that iterates (also
+/// sizes that do not divide the number of shards) and whatever pool the index was created in.
+fn par_iteration_rounds(a: &Args, rep: &mut Report, rounds: u32) {
+   use rayon::prelude::*;
+   let mut s = a.seed.wrapping_mul(0x9E37_79B9_7F4A_7C15) ^ 0xC19;
+   let mut next = || {
+      s ^= s << 13;
+      s ^= s >> 7;
+      s ^= s << 17;
+      s
+   };
+   for round in 0..rounds {
+      let made_in = [1usize, 2, 3, 8, 16][(next() % 5) as usize];
+      let n_keys = 200 + (next() % 1800) as u32;
+      let keys: Vec<u32> = (0..n_keys).map(|_| (next() % 100_000) as u32).collect();
+      let res = catch(|| {
+         let (mut ci, mut cl, mut cf) = pool_of(made_in).install(|| (CRelIndex::<(u32,), (u32,)>::default(), CLatIndex::<(u32,), (u32,)>::default(), CRelFullIndex::<(u32,), u32>::default()));
+         for k in &keys {
+            CRelIndexWrite::index_insert(&ci, (*k,), (k % 7,));
+            CRelIndexWrite::index_insert(&cl, (*k,), (k % 7,));
+            CRelFullIndexWrite::insert_if_not_present(&cf, &(*k,), k % 7);
+         }
+         Freezable::freeze(&mut ci);
+         Freezable::freeze(&mut cl);
+         Freezable::freeze(&mut cf);
+         let mut want_i: Vec<(u32, u32)> = RelIndexReadAll::iter_all(&ci).flat_map(|(k, vs)| vs.map(move |v| (k.0, v.0))).collect();
+         want_i.sort();
+         let mut want_l: Vec<(u32, u32)> = RelIndexReadAll::iter_all(&cl).flat_map(|(k, vs)| vs.map(move |v| (k.0, v.0))).collect();
+         want_l.sort();
+         let mut want_f: Vec<(u32, u32)> = RelIndexReadAll::iter_all(&cf).flat_map(|(k, vs)| vs.map(move |v| (k.0, v))).collect();
+         want_f.sort();
+         let mut errs = vec![];
+         if want_i.len() != keys.len() {
+            errs.push(format!("CRelIndex: serial iter_all yields {} entries, {} were inserted", want_i.len(), keys.len()));
+         }
+         for threads in [1usize, 2, 3, 5, 6, 7, 8] {
+            let (gi, gl, gf) = pool_of(threads).install(|| {
+               let mut gi: Vec<(u32, u32)> = CRelIndexReadAll::c_iter_all(&ci).flat_map(|(k, vs)| vs.map(move |v| (k.0, v.0))).collect();
+               gi.sort();
+               let mut gl: Vec<(u32, u32)> = CRelIndexReadAll::c_iter_all(&cl).flat_map(|(k, vs)| vs.map(move |v| (k.0, v.0))).collect();
+               gl.sort();
+               let mut gf: Vec<(u32, u32)> = CRelIndexReadAll::c_iter_all(&cf).flat_map(|(k, vs)| vs.map(move |v| (k.0, *v))).collect();
+               gf.sort();
+               (gi, gl, gf)
+            });
+            for (name, got, want) in [("CRelIndex", &gi, &want_i), ("CLatIndex", &gl, &want_l), ("CRelFullIndex", &gf, &want_f)] {
+               if got != want {
+                  errs.push(format!(
+                     "{name} (created under {made_in} threads, {} entries): c_iter_all in a pool of {threads} threads yields {} entries",
+                     want.len(),
+                     got.len()
+                  ));
+               }
+            }
+         }
+         errs
+      });
+      rep.evaluations += 1;
+      rep.nontrivial += 1;
+      match res {
+         Ok(errs) =>
+            if let Some(e) = errs.into_iter().next() {
+               rep.violation(serde_json::json!({"par_iteration_round": round, "failure": e}));
+               break;
+            },
+         Err(p) => {
+            rep.violation(serde_json::json!({"par_iteration_round": round, "panic": p}));
+            break;
+         },
+      }
+   }
+   rep.count("par_iteration_rounds(c_iter_all in pools of 1, 2, 3, 5, 6, 7, 8 threads against the serial iteration)", rounds as u64);
+}
+
 pub fn run(a: &Args, rep: &mut Report) {
    let cases = if a.tier == "quick" { 3000 } else { 60000 };
    run_type::<RelIndexType1<(u8,), (u8,)>>(a, rep, cases);
@@ -820,6 +894,7 @@ pub fn run(a: &Args, rep: &mut Report) {
    run_type::<CRelNoIndex<(u8,)>>(a, rep, cases);
    concurrent_rounds(a, rep, if a.tier == "quick" { 400 } else { 6000 });
    read_while_write_rounds(a, rep, if a.tier == "quick" { 12 } else { 120 });
+   par_iteration_rounds(a, rep, if a.tier == "quick" { 12 } else { 150 });
    rep.notes.push("RelIndexCombined is exercised over (total, delta) of every type; for the concurrent types every second history creates the three versions in pools of different sizes and makes each insert on a chosen worker; the concurrent rounds create the indices under 1, 2 or 8 threads and fill them from 2-8 workers plus plain threads".into());
 }
 
